@@ -2,7 +2,7 @@
 C09 — property theorems about reading a saved text back through `loadManifest` (`C10.fsLoad`).
 -/
 import ArvVerif.Proofs.C09_Marker
-import ArvVerif.Proofs.C09_Mixed2
+import ArvVerif.Proofs.C09_Cover
 import ArvVerif.Props.C09
 namespace ArvVerif.C09
 
@@ -41,12 +41,19 @@ theorem C09_loader_reads_markers (txt : Bytes) (L : List Line9) (hvalid : parse9
       tr.files = tr1.files ∧ ∀ d, d ∈ tr.dirs ↔ (d ∈ tr1.dirs ∨ d ∈ markerDirs L) :=
   fsLoad_mixed txt L hvalid hfit htree hmark
 
+/-- **`loadManifest` makes every ancestor directory of every file**, for ANY text it accepts (inside the
+grammar or not): in the tree it returns, every non-empty prefix of the directory part of a file's key is a
+directory. -/
+theorem C09_loader_makes_ancestors (txt : Bytes) (tr : C10.FsTree) (h : C10.fsLoad txt = some tr) :
+    ∀ e ∈ tr.files, ∀ pre, pre ≠ [] → pre <+: e.1.dropLast → pre ∈ tr.dirs :=
+  fun e he => fsLoad_cover txt tr h e.1 (List.mem_map.mpr ⟨e, he, rfl⟩)
+
 /-- **The whole saved text through `loadManifest`.** After a successful save of a closed tree in which
 no file has the path of a directory and whose saved sizes the loader can represent: `loadManifest`
 accepts the text (marker lines included); the loaded tree has, for every file of the saved tree, a
 file with exactly that key whose stored segments read exactly the file's bytes, and no other file;
-every directory it created is a directory of the tree; and every empty directory of the tree (below
-the root) exists in it. -/
+and its directories are exactly the directories of the saved tree below the root — empty ones (own
+marker), ones holding only sub-directories, ones holding files. -/
 theorem C09_marshal_fsLoad (hh : HashOK hash) {k : Keep} {t : Tree9} (hok : SaveOK max hash k t) (hnd : NoDel t)
     (hclosed : TreeClosed t) (hclash : ∀ d ∈ t, ∀ f ∈ d.files, d.path ++ [f.1] ∉ dirPaths t)
     {txt : Bytes} (h : (marshal9 hash max k t).2.2 = MRes.ok txt)
@@ -56,7 +63,7 @@ theorem C09_marshal_fsLoad (hh : HashOK hash) {k : Keep} {t : Tree9} (hok : Save
         C10.segBytes (blkOf (marshal9 hash max k t).1.store) e.2 = C08.abs (marshal9 hash max k t).1.store f.2) ∧
       (∀ e ∈ tr.files, ∃ d ∈ (marshal9 hash max k t).2.1, ∃ f ∈ d.files, e.1 = d.path ++ [f.1]) ∧
       (∀ p ∈ tr.dirs, p ∈ dirPaths t) ∧
-      (∀ d ∈ (marshal9 hash max k t).2.1, d.isEmpty = true → d.path ≠ [] → d.path ∈ tr.dirs) := by
+      (∀ p ∈ dirPaths t, p ≠ [] → p ∈ tr.dirs) := by
   obtain ⟨r1, r2, r3, _, _, r6⟩ := marshal9_run (max := max) hh hok
   obtain ⟨_, L, h1, h2⟩ := C09_marshal_valid hh hok hnd h
   obtain ⟨_, a2, _, a4⟩ := TreeKept.abs_eq r3 r2.ext hok.wf
@@ -212,8 +219,9 @@ theorem C09_marshal_fsLoad (hh : HashOK hash) {k : Keep} {t : Tree9} (hok : Save
     obtain ⟨hko, hin, _⟩ := hinv.files e he
     obtain ⟨d, hd, f, hf, hq⟩ := hdone _ hin
     exact ⟨d, hd, f, hf, C10.pathOfKey_inj hko (hkeyok d hd f hf) hq⟩
-  refine ⟨tr, hload, ?_, hfilekey, ?_, ?_⟩
-  · intro d hd f hf
+  have hfilesIn : ∀ d ∈ (marshal9 hash max k t).2.1, ∀ f ∈ d.files, ∃ e ∈ tr.files, e.1 = d.path ++ [f.1] ∧
+      C10.segBytes (blkOf (marshal9 hash max k t).1.store) e.2 = C08.abs (marshal9 hash max k t).1.store f.2 := by
+    intro d hd f hf
     obtain ⟨e, hem, hs, p, hp, hpn⟩ := file_has_token h1 hd hf
     have hc : (C10.pathOf (prefixOf d.path) f.1, C10.resolveTok (streamOfEmit d.path e).blocks 0 p.off p.len) ∈
         C10.manifestContribs (streamsOf L) := by
@@ -231,6 +239,7 @@ theorem C09_marshal_fsLoad (hh : HashOK hash) {k : Keep} {t : Tree9} (hok : Save
     rw [hseg, C10.contribOf_manifest, C10.resolve_bytes _ _ _ hblk, hpe]
     exact treeLines_content (max := max) (hash := hash) _ L r1.shape
       (fun d hd f hf => r1.wf d hd f.2 (List.mem_map.mpr ⟨f, hf, rfl⟩)) h1 d hd f hf
+  refine ⟨tr, hload, hfilesIn, hfilekey, ?_, ?_⟩
   · intro p hp
     rw [← a2]
     rcases (hdirs p).mp hp with hp1 | hp2
@@ -252,32 +261,41 @@ theorem C09_marshal_fsLoad (hh : HashOK hash) {k : Keep} {t : Tree9} (hok : Save
       apply hclosed'.prefixes q p
       rw [hq]
       exact List.mem_map.mpr ⟨d, hd, rfl⟩
-  · intro d hd he hne
-    apply (hdirs d.path).mpr
-    right
-    -- its marker is a line of the text
-    have hn : prefixOf d.path ∈ markersOf L := by
-      rw [treeLines_markers _ L h1]
-      exact List.mem_map.mpr ⟨d, List.mem_filter.mpr ⟨hd, by simp [he, hne]⟩, rfl⟩
-    have hcomps : compsOfName (prefixOf d.path) = d.path := by
-      unfold compsOfName; rw [splitOn_prefixOf _ (hnoslash d hd).1]; rfl
-    have : ∀ (L' : List Line9) (n : Bytes), n ∈ markersOf L' → ∀ k ∈ dirPrefixes (compsOfName n), k ∈ markerDirs L' := by
-      intro L'
-      induction L' with
-      | nil => intro n hn; cases hn
-      | cons x xs ih =>
-        intro n hn k hk
-        cases x with
-        | stream s => simp only [markersOf] at hn; simp only [markerDirs]; exact ih n hn k hk
-        | marker m =>
-          simp only [markersOf, List.mem_cons] at hn
-          simp only [markerDirs, List.mem_append]
-          rcases hn with rfl | hn
-          · exact Or.inl hk
-          · exact Or.inr (ih n hn k hk)
-    apply this L _ hn
-    rw [hcomps]
-    exact mem_dirPrefixes.mpr ⟨hne, List.prefix_refl _⟩
+  · intro p hp hne
+    rw [← a2] at hp
+    obtain ⟨d0, hd0, rfl⟩ := List.mem_map.mp hp
+    have hns : ∀ d ∈ (marshal9 hash max k t).2.1, ∀ c ∈ d.path, bSlash ∉ c := fun d hd => (hnoslash d hd).1
+    obtain ⟨n, hn, q, hq, hnq⟩ := (dirs_recovered h1 hclosed' hns d0.path hne (hns d0 hd0)).mp hp
+    obtain ⟨d, hd, hnd', hkind⟩ := treeLines_names_kind _ L h1 n hn
+    -- the directory the line names lies at or below `d0`
+    have hpath : d.path = d0.path ++ q := by
+      have e1 := splitOn_prefixOf d.path (hns d hd)
+      have e2 := splitOn_prefixOf (d0.path ++ q) (by
+        intro c hc; rcases List.mem_append.mp hc with hc | hc
+        · exact hns d0 hd0 c hc
+        · exact hq c hc)
+      rw [← hnd', hnq, e2] at e1
+      exact ((List.cons.inj e1).2).symm
+    rcases hkind with hf | ⟨he, hne'⟩
+    · -- a directory with a file: the loader made the file, hence every ancestor
+      obtain ⟨f, hf⟩ : ∃ f, f ∈ d.files := by
+        cases hd' : d.files with
+        | nil => exact absurd hd' hf
+        | cons a b => exact ⟨a, by simp⟩
+      obtain ⟨e, he, hk, _⟩ := hfilesIn d hd f hf
+      have hcov := fsLoad_cover txt tr hload e.1 (List.mem_map.mpr ⟨e, he, rfl⟩)
+      rw [hk, List.dropLast_concat, hpath] at hcov
+      exact hcov d0.path hne (List.prefix_append _ _)
+    · apply (hdirs d0.path).mpr
+      right
+      have hn' : prefixOf d.path ∈ markersOf L := by
+        rw [treeLines_markers _ L h1]
+        exact List.mem_map.mpr ⟨d, List.mem_filter.mpr ⟨hd, by simp [he, hne']⟩, rfl⟩
+      have hcomps : compsOfName (prefixOf d.path) = d.path := by
+        unfold compsOfName; rw [splitOn_prefixOf _ (hns d hd)]; rfl
+      apply mem_markerDirs_of L _ hn'
+      rw [hcomps, hpath]
+      exact mem_dirPrefixes.mpr ⟨hne, List.prefix_append _ _⟩
 
 /-! ### non-vacuity of `C09_marshal_fsLoad` (and, through it, of `C09_loader_reads_markers`) -/
 
